@@ -12,7 +12,6 @@ from __future__ import annotations
 import asyncio
 import copy
 import json
-import re
 
 from harness import common as C
 from harness import c08 as V   # value encoders shared with C08 (enc/dec/val_coq/fl_coq)
@@ -21,7 +20,7 @@ NS_DEVICE = "urn:schemas-upnp-org:device-1-0"
 NS_SERVICE = "urn:schemas-upnp-org:service-1-0"
 NS_FOREIGN = "urn:x"
 
-INT_TYPES, FLOAT_TYPES, STR_TYPES, DATE_TYPES, ALL_TYPES = V.INT_TYPES, V.FLOAT_TYPES, V.STR_TYPES, V.DATE_TYPES, V.ALL_TYPES
+ALL_TYPES = V.ALL_TYPES
 PYTYPE = V.PYTYPE
 COQ_PYTYPE = {"int": "TInt", "float": "TFloat", "str": "TStr", "bool": "TBool", "date": "TDate", "datetime": "TDateTime",
               "time": "TTime"}
